@@ -1,5 +1,4 @@
 import JadeModel.Proofs.SystemLive1
-import JadeModel.Proofs.SystemLive2Defs
 import JadeModel.Proofs.SystemLiveStep3A
 import JadeModel.Proofs.SystemLiveStep3B
 import JadeModel.Proofs.SystemLiveStep3C
@@ -15,8 +14,8 @@ namespace Jade.Sys
 
 theorem live3_step {s s' : Sys} {op : Op} (hb : BatchInv s) (h0 : Live0 s) (h2 : Live2 s) (hi : Live3 s)
     (h : stepP s op = some s') : Live3 s' := by
-  obtain ⟨c_hProc, c_dProc⟩ := live3_step_a hb h0 h2 hi h
-  obtain ⟨c_newlyNotNs, c_passNotNs, c_pendNs⟩ := live3_step_b hb h0 h2 hi h
+  obtain ⟨c_hProc, c_dProc, c_pendNs⟩ := live3_step_a hb h0 h2 hi h
+  obtain ⟨c_newlyNotNs, c_passNotNs⟩ := live3_step_b hb h0 h2 hi h
   obtain ⟨c_toCancelDone, c_syncDone⟩ := live3_step_c hb h0 h2 hi h
   exact ⟨c_hProc, c_dProc, c_newlyNotNs, c_passNotNs, c_pendNs, c_toCancelDone, c_syncDone⟩
 
